@@ -259,6 +259,16 @@ func runC05(c *core.Ctx) {
 			}
 			k.goit("add", "big")
 		}
+		if w.Hist%4 == 2 {
+			// names that end or begin with white space (a blank, U+3000, U+00A0), as the only / the last child of a tree:
+			// what is listed must be the complete name
+			for _, p := range []string{"only/a ", "wide/\u3000x\u3000", "nb/y\u00a0", "~z ", " lead", "sp /in dir ", "only2/ b"} {
+				if k.chance(70) {
+					w.Write(p, k.content())
+					k.goit("add", p)
+				}
+			}
+		}
 		k.Do("commit-all")
 		steps := c.Pick(22, 28)
 		for i := 0; i < steps; i++ {
